@@ -36,6 +36,7 @@ type CutSpec struct {
 	Asserts []*Clause
 	Assumes []*Clause
 	Lets    []*Clause // ghost snapshots: name := expr evaluated at the cut
+	Hits    int       // how often the cut was reached while encoding (0 after a run = tool error)
 }
 
 type CallSpec struct { // obligations at a call site: //@ at call N <callee> assert E   (args as $1..$n, receiver $0)
